@@ -6,25 +6,25 @@ Import ListNotations.
 Lemma lex_all_lend_ok files main : lend_ok (snd (lex_all files main)).
 Proof. destruct (lex_all_end_ok files main) as [E | [s E]]; rewrite E; exact I. Qed.
 
-Theorem conf_init_total : forall hl_expand regcomp_ok resolves is_chardev (files : text -> option text) (main : text),
-  (exists c, conf_init hl_expand regcomp_ok resolves is_chardev files main = Ok c /\ mandatory_ok c = true) \/
-  (exists site, conf_init hl_expand regcomp_ok resolves is_chardev files main = Exit 1 site).
+Theorem conf_init_total : forall hl_expand regcomp_ok resolves is_chardev stale_erange (files : text -> option text) (main : text),
+  (exists c, conf_init hl_expand regcomp_ok resolves is_chardev stale_erange files main = Ok c /\ mandatory_ok c = true) \/
+  (exists site, conf_init hl_expand regcomp_ok resolves is_chardev stale_erange files main = Exit 1 site).
 Proof.
-  intros hl re gai chr files main. unfold conf_init.
+  intros hl re gai chr stale files main. unfold conf_init.
   pose proof (lex_all_lend_ok files main) as L. destruct (lex_all files main) as [toks e]; cbn [snd] in L.
-  destruct (load_stream_total hl re gai chr e toks L) as [[c E] | [s E]].
+  destruct (load_stream_total hl re gai chr stale e toks L) as [[c E] | [s E]].
   - left. exists c. split; [assumption|]. eapply load_stream_accepted; eassumption.
   - right. exists s. assumption.
 Qed.
 
-Theorem load_total : forall hl_expand regcomp_ok resolves is_chardev (toks : list token),
-  (exists c, load hl_expand regcomp_ok resolves is_chardev toks = Ok c) \/
-  (exists site, load hl_expand regcomp_ok resolves is_chardev toks = Exit 1 site).
+Theorem load_total : forall hl_expand regcomp_ok resolves is_chardev stale_erange (toks : list token),
+  (exists c, load hl_expand regcomp_ok resolves is_chardev stale_erange toks = Ok c) \/
+  (exists site, load hl_expand regcomp_ok resolves is_chardev stale_erange toks = Exit 1 site).
 Proof. intros. unfold load. apply load_stream_total. exact I. Qed.
 
-Theorem load_accepted : forall hl_expand regcomp_ok resolves is_chardev (toks : list token) c,
-  load hl_expand regcomp_ok resolves is_chardev toks = Ok c -> mandatory_ok c = true.
-Proof. intros hl re gai chr toks c. unfold load. apply load_stream_accepted. exact I. Qed.
+Theorem load_accepted : forall hl_expand regcomp_ok resolves is_chardev stale_erange (toks : list token) c,
+  load hl_expand regcomp_ok resolves is_chardev stale_erange toks = Ok c -> mandatory_ok c = true.
+Proof. intros hl re gai chr stale toks c. unfold load. apply load_stream_accepted. exact I. Qed.
 
 (* numbers: the lexer of the current source hands the parser a private copy of every numeric token
    (GenLex.number_copied), so in the model a TNum token carries its own text; that text is a non-empty run of
